@@ -13,7 +13,8 @@ from mc.vloop import World
 OPS = [("status", 200), ("status", 204), ("status", 304), ("status", 404), ("status", 205), ("hdr2",),
        ("cl", 0), ("cl", -1), ("cl", +1),
        ("hdr",), ("write", b""), ("write", b"a"), ("write", b"hello"),
-       ("flush",), ("finish",), ("finish", b"xy"), ("raise",)]
+       ("flush",), ("finish",), ("finish", b"xy"), ("raise",), ("write", b"<p>compressible</p>" * 80)]
+GZ_OPS = [17, 11, 13, 14, 15, 3, 9]      # big write, write a, flush, finish, finish xy, 404, X-A
 METHODS = ["GET", "HEAD", "POST"]
 VERSIONS = [("1.1", False), ("1.0", False), ("1.0", True)]
 
@@ -37,7 +38,7 @@ def total_written(prog):
     return n
 
 
-def make_app():
+def make_app(compress=False):
     from tornado import web
 
     class Prog(web.RequestHandler):
@@ -76,11 +77,13 @@ def make_app():
         def get(self):
             self.write("pong")
 
-    return web.Application([("/p", Prog), ("/ping", Ping)])
+    return web.Application([("/p", Prog), ("/ping", Ping)], compress_response=compress)
 
 
-def request_bytes(method, version, keepalive, inm):
+def request_bytes(method, version, keepalive, inm, gz=False):
     s = "%s /p HTTP/%s\r\nHost: h\r\n" % (method, version)
+    if gz:
+        s += "Accept-Encoding: gzip\r\n"
     if keepalive:
         s += "Connection: keep-alive\r\n"
     if inm:
@@ -93,13 +96,34 @@ def request_bytes(method, version, keepalive, inm):
 PING = b"GET /ping HTTP/1.1\r\nHost: h\r\n\r\n"
 
 
-def execute(app, prog, method, version, keepalive, inm):
+SLOW_QUOTA = 7
+
+
+def execute(app, prog, method, version, keepalive, inm, slow=False, gz=False):
     _STATE["prog"] = prog
     _STATE["raised"] = None
     with World() as w:
         c = ServerConn(w, app)
-        c.send(request_bytes(method, version, keepalive, inm) + PING)
+        if slow:
+            # the peer's window takes SLOW_QUOTA bytes per loop round: every write of the response stays queued in the
+            # IOStream for a while, so "finished" and "flushed to the socket" are far apart
+            q = [SLOW_QUOTA]
+
+            def hook(sock, n):
+                if q[0] == 0:
+                    return "EAGAIN"
+                k = min(q[0], n)
+                q[0] -= k
+                return k
+            c.sock.send_hook = hook
+        c.send(request_bytes(method, version, keepalive, inm, gz) + PING)
         w.pump()
+        rounds = 0
+        while slow and not c.sock.closed and (c.sock.blocked or q[0] == 0) and rounds < 400:
+            rounds += 1
+            q[0] = SLOW_QUOTA
+            c.sock.unblock()
+            w.pump()
         out, closed = c.output, c.closed
         raised = _STATE["raised"]
         errlogs = [(r[1], r[2][:60], r[3]) for r in w.logs.records if r[0] != "tornado.access" and r[1] in ("ERROR", "CRITICAL")]
@@ -157,7 +181,7 @@ def reference(prog, method, version, inm):
     return status, xa, body
 
 
-def judge(prog, method, version, keepalive, inm, obs, twin_body_len):
+def judge(prog, method, version, keepalive, inm, obs, twin_body_len, twin_ce=NotImplemented):
     out, closed, raised, errlogs = obs
     bad = []
     rs, probs = read_responses(out, [method, "GET"], closed)
@@ -198,6 +222,18 @@ def judge(prog, method, version, keepalive, inm, obs, twin_body_len):
         if int(cl) != twin_body_len:
             bad.append(("head-content-length", "HEAD Content-Length %s but the GET twin's body has %d bytes"
                         % (cl.decode(), twin_body_len)))
+    ce = first.get("content-encoding")
+    if method == "HEAD" and twin_ce is not NotImplemented and not rejected and first.code != 304 and ce != twin_ce:
+        bad.append(("head-content-encoding", "HEAD Content-Encoding %r but the GET twin's is %r" % (ce, twin_ce)))
+    if ce is not None and method != "HEAD" and not hard:
+        import gzip
+        try:
+            first.body = gzip.decompress(first.body) if ce == b"gzip" else None
+        except Exception as e:
+            first.body = None
+        if first.body is None:
+            bad.append(("content-encoding-undecodable", "%s: Content-Encoding %r but the body does not decode" % (tag, ce)))
+            return bad, first
     # ---- content equals what the handler wrote
     if ref is not None and not hard:
         status, xa, body = ref
@@ -237,9 +273,11 @@ class C02(Check):
         return 3 if tier == "quick" else 4
 
     def partitions(self, tier):
-        return [(self.L(tier), s, 64) for s in range(64)]
+        return [(self.L(tier), s, 64) for s in range(64)] + [("gzip", self.L(tier) + 1, s) for s in range(len(GZ_OPS))]
 
     def run_partition(self, part, tier, st):
+        if part[0] == "gzip":
+            return self.run_gzip(part[1], GZ_OPS[part[2]], st)
         L, s, nsl = part
         app = make_app()
         k = 0
@@ -255,9 +293,42 @@ class C02(Check):
                 self.run_prog(app, prog, st)
         st.setmax("max_program_length", L)
 
+    def run_gzip(self, L, first_op, st):
+        """compress_response=True and Accept-Encoding: gzip: the transform rewrites Content-Length / Content-Encoding on the
+        first flush; HEAD must mirror GET, and the decoded body is what the handler wrote."""
+        app = make_app(compress=True)
+        for n in range(1, L + 1):
+            for rest in itertools.product(GZ_OPS, repeat=n - 1):
+                prog = (first_op,) + rest
+                fin = [j for j, i in enumerate(prog) if OPS[i][0] == "finish"]
+                if fin and fin[0] < len(prog) - 1:
+                    continue
+                for version, ka in VERSIONS:
+                    twin = twin_ce = None
+                    for method in ("GET", "HEAD"):
+                        obs = execute(app, prog, method, version, ka, False, gz=True)
+                        st.ev()
+                        st.transitions += len(prog) + 2
+                        key = h(("gz", prog, method, version, ka))
+                        st.states.add(key)
+                        st.nontrivial.add(key)
+                        bad, first = judge(prog, method, version, ka, False, obs, twin,
+                                           twin_ce if method == "HEAD" and twin is not None else NotImplemented)
+                        if method == "GET" and first is not None:
+                            wire = read_responses(obs[0], ["GET", "GET"], obs[1])[0]
+                            twin, twin_ce = len(wire[0].body), first.get("content-encoding")
+                        st.outcome(h(("gz", first.code if first else None, first.framing if first else None,
+                                      first.get("content-encoding") if first else None, obs[1])))
+                        for sig, msg in bad:
+                            st.violation("gzip:" + sig, "compress_response, program %r: %s" % ([OPS[i][:1] for i in prog], msg),
+                                         {"prog": list(prog), "method": method, "version": version, "ka": ka,
+                                          "inm": False, "gz": True})
+
     def run_prog(self, app, prog, st):
         interesting = any(OPS[i][0] in ("flush", "cl", "raise") or OPS[i] in (("status", 204), ("status", 304))
                           for i in prog)
+        streams = (17 not in prog and any(OPS[i][0] == "flush" for i in prog)
+                   and any(OPS[i][0] == "write" or OPS[i] == ("finish", b"xy") for i in prog))
         for version, ka in VERSIONS:
             for inm in (False, True):
                 twin = None
@@ -280,17 +351,33 @@ class C02(Check):
                     for sig, msg in bad:
                         st.violation(sig, "program %r: %s" % ([OPS[i] for i in prog], msg),
                                      {"prog": list(prog), "method": method, "version": version, "ka": ka, "inm": inm})
+                    if (streams and method != "HEAD" and not bad and obs[2] is None
+                            and reference(prog, method, version, inm) is not None):
+                        # same execution against a peer that drains 7 bytes per loop round
+                        obs2 = execute(app, prog, method, version, ka, inm, slow=True)
+                        st.ev()
+                        st.states.add(h((key, "slow")))
+                        st.nontrivial.add(h((key, "slow")))
+                        if obs2[0] != obs[0]:
+                            st.violation("slow-peer-changes-the-response",
+                                         "program %r %s HTTP/%s: wire with a slow peer %r, with a fast peer %r"
+                                         % ([OPS[i] for i in prog], method, version, obs2[0][-60:], obs[0][-60:]),
+                                         {"prog": list(prog), "method": method, "version": version, "ka": ka,
+                                          "inm": inm, "slow": True})
 
     def replay(self, case):
-        app = make_app()
+        gz = case.get("gz", False)
+        app = make_app(compress=gz)
         prog = tuple(case["prog"])
-        twin = None
+        twin, twin_ce = None, NotImplemented
         if case["method"] == "HEAD":
-            o = execute(app, prog, "GET", case["version"], case["ka"], case["inm"])
-            b, f = judge(prog, "GET", case["version"], case["ka"], case["inm"], o, None)
-            twin = len(f.body) if f else None
-        obs = execute(app, prog, case["method"], case["version"], case["ka"], case["inm"])
-        bad, first = judge(prog, case["method"], case["version"], case["ka"], case["inm"], obs, twin)
+            o = execute(app, prog, "GET", case["version"], case["ka"], case["inm"], gz=gz)
+            wire = read_responses(o[0], ["GET", "GET"], o[1])[0]
+            twin = len(wire[0].body) if wire else None
+            if gz and wire:
+                twin_ce = wire[0].get("content-encoding")
+        obs = execute(app, prog, case["method"], case["version"], case["ka"], case["inm"], slow=case.get("slow", False), gz=gz)
+        bad, first = judge(prog, case["method"], case["version"], case["ka"], case["inm"], obs, twin, twin_ce)
         return "program %r\nrequest %r\nwire %r\nclosed %r raised %r\nverdict %r" % (
             [OPS[i] for i in prog], (case["method"], case["version"], case["ka"], case["inm"]),
             obs[0], obs[1], obs[2], bad)
